@@ -240,7 +240,7 @@ func mutateDeep(r *rand.Rand, v any, o genOpts, depth int) any {
 func init() {
 	register(&Prop{
 		ID:   "C04",
-		Rule: "kinds: merge (pairs (A,B): B derived from A by 1-4 mutations at any depth — kind flips, nulls, list truncation/extension, lists of containers/lists — or independent; both list strategies; inputs snapshotted before/after, identities and idempotence as Go-side oracles), overlay-merged (2-3 layers through OverlayDocument.Merged), fluent (ConfigHelper Add..Load(file).Result()). Non-trivial: pair has a kind conflict or unequal-length lists. Distinct by Gallina term.",
+		Rule: "kinds: merge (pairs (A,B): B derived from A by 1-4 mutations at any depth — kind flips, nulls, list truncation/extension, lists of containers/lists — or independent; both list strategies; inputs snapshotted before/after, identities and idempotence as Go-side oracles), overlay-merged (2-3 layers through OverlayDocument.Merged), fluent (ConfigHelper Add..Load(file).Result()). Non-trivial: pair has a kind conflict or unequal-length lists. Distinct by Gallina term. ConfigHelper sources are plain maps, builders and sealed views in turn.",
 		Corpus: func() []Case {
 			return []Case{
 				c04Merge(nil, map[string]any{"a": 1}, map[string]any{"a": nil, "b": nil}, false),
